@@ -331,10 +331,7 @@ func c08Run(e *Env, p *c08Plan) {
 		}
 		if pn != nil {
 			origin := panicOrigin(stack)
-			fn := origin[strings.LastIndex(origin, "/")+1:]
-			if i := strings.Index(fn, "(0x"); i > 0 {
-				fn = fn[:i]
-			}
+			fn := frameFunc(origin)
 			e.Violation("panic/"+c.Target+"/"+fn, "%s: panic %v at %s", tag, pn, origin)
 			return
 		}
